@@ -7,6 +7,7 @@ import (
 	"bufio"
 	"fmt"
 	"io"
+	"os"
 	"os/exec"
 	"sort"
 	"strconv"
@@ -28,6 +29,7 @@ type Solver struct {
 	Errors   []string
 	log      io.Writer
 	timeoutS int
+	dead     bool
 }
 
 const (
@@ -42,7 +44,13 @@ func newSolver(kind string, timeoutS int) (*Solver, error) {
 	case "z3":
 		cmd = exec.Command("z3", "-in", fmt.Sprintf("-t:%d", timeoutS*1000))
 	case "z3-new":
-		cmd = exec.Command("z3-new", "-in", fmt.Sprintf("-t:%d", timeoutS*1000))
+		// a memory cap per solver process: beyond it z3 gives up (the query, and the run, become inconclusive) instead of
+		// the kernel's OOM killer choosing a victim
+		mem := os.Getenv("VERIF_Z3_MEM_MB")
+		if mem == "" {
+			mem = "3072"
+		}
+		cmd = exec.Command("z3-new", "-in", fmt.Sprintf("-t:%d", timeoutS*1000), "-memory:"+mem)
 	case "cvc5":
 		cmd = exec.Command("cvc5", "--incremental", "--lang=smt2", "--produce-models", fmt.Sprintf("--tlimit-per=%d", timeoutS*1000))
 	default:
@@ -195,6 +203,7 @@ func (s *Solver) Check(conj []*Term, wantModel bool, vars []*Term) (int, map[str
 		if err != nil {
 			s.Errors = append(s.Errors, "solver died: "+err.Error())
 			s.Unknowns++
+			s.dead = true
 			return resUnknown, nil
 		}
 		if line == "" {
